@@ -56,7 +56,7 @@ func (lb *LoadBalancer) ListBackends() []BackendInfo {
 			Name:              b.Name,
 			Address:           b.URL.String(),
 			Healthy:           b.IsHealthy,
-			ActiveConnections: b.ActiveConnections,
+			ActiveConnections: b.GetActiveConnections(),
 			Weight:            b.Weight,
 		}
 		b.Mutex.RUnlock()
@@ -574,6 +574,14 @@ func (lb *LoadBalancer) IsBackendHealthy(backend *Backend) bool {
 	}
 
 	return isHealthy
+}
+
+// healthFlag returns the cached health flag under the backend's lock. Strategies use it instead of
+// reading IsHealthy directly, which races with the health checks writing it.
+func (backend *Backend) healthFlag() bool {
+	backend.Mutex.RLock()
+	defer backend.Mutex.RUnlock()
+	return backend.IsHealthy
 }
 
 // IncrementConnections increments the active connection count for a backend
